@@ -149,10 +149,11 @@ def run_case(h, R, line, idx):
                 while True:
                     try:
                         x = st['sslobj'].read(65536)
-                    except ssl.SSLWantReadError:
-                        break
+                    except (ssl.SSLWantReadError, ssl.SSLZeroReturnError):
+                        break                         # nothing more yet / close_notify from the server
                     except (ssl.SSLError, OSError):
-                        st['garbled'] = True
+                        if not st.get('halfclosed'):     # behind our own half-close (no close_notify sent) an alert is expected
+                            st['garbled'] = True
                         break
                     if not x:
                         break
@@ -287,6 +288,7 @@ def run_case(h, R, line, idx):
                     if handshake(kind == 'B'):
                         switched_at = len(st['clear'])
                 elif kind == 'C':
+                    st['halfclosed'] = True
                     try:
                         a.shutdown(socket.SHUT_WR)
                     except OSError:
